@@ -420,6 +420,58 @@ def ret_store(prog):
                 l = strip(kids(x)[0])
                 if l['k'] == 'UnaryOperator' and l.get('op') == '*' and strip(kids(l)[0], casts=True).get('d') == outp[0]['d']:
                     stored = True
+        if not stored:
+            # `*num = n;` in a dominating block, with nothing but statements that leave n alone on the way to the return
+            # (`*num = n; if (...) { tokens_push(...); } return 0;`)
+            from nk.cfg import dominators
+            dom = dominators(fn)
+            pr = fn.preds()
+            for sb in dom[w[0]]:
+                if sb == w[0]:
+                    continue
+                st_i = None
+                for i_, e in enumerate(fn.blocks[sb]['e']):
+                    x = fn.nodes.get(e)
+                    if x is not None and x['k'] == 'BinaryOperator' and x.get('op') == '=':
+                        l = strip(kids(x)[0])
+                        if l['k'] == 'UnaryOperator' and l.get('op') == '*' and strip(kids(l)[0], casts=True).get('d') == outp[0]['d']:
+                            st_i = (i_, strip(kids(x)[1], casts=True).get('d'))
+                if st_i is None:
+                    continue
+                # blocks between: reachable from sb without leaving through the function's loops back to sb, reaching w
+                fwd = set()
+                stack = [x for x in fn.succs(sb)]
+                while stack:
+                    x = stack.pop()
+                    if x in fwd or x == sb:
+                        continue
+                    fwd.add(x)
+                    if x != w[0]:
+                        stack.extend(fn.succs(x))
+                bwd = set()
+                stack = [w[0]]
+                while stack:
+                    x = stack.pop()
+                    if x in bwd or x == sb:
+                        continue
+                    bwd.add(x)
+                    stack.extend(pr.get(x, ()))
+                between = (fwd & bwd) | {w[0]}
+                clean = True
+                for b_ in between:
+                    for e in fn.blocks[b_]['e']:
+                        x = fn.nodes.get(e)
+                        if x is not None and x['k'] in ('BinaryOperator', 'CompoundAssignOperator', 'UnaryOperator') and \
+                                (x.get('op') in ('++', '--') or (x.get('op', '').endswith('=') and x['op'] not in ('==', '!=', '<=', '>='))):
+                            t_ = strip(kids(x)[0])
+                            if t_.get('d') == st_i[1] or (t_['k'] == 'UnaryOperator' and t_.get('op') == '*'):
+                                clean = False
+                for e in fn.blocks[sb]['e'][st_i[0] + 1:]:
+                    x = fn.nodes.get(e)
+                    if x is not None and x['k'] == 'BinaryOperator' and x.get('op') == '=' and strip(kids(x)[0]).get('d') == st_i[1]:
+                        clean = False
+                if clean:
+                    stored = True
         obs.append(Ob('RET-STORE', fn.file, n['l'], fn.q, 'return-0#%d' % k, DISCHARGED if stored else VIOLATED,
                       '' if stored else 'this `return 0` does not store *num: the value computed at this precedence level is lost and the '
                       'caller continues with the operand it had before (`.if 2 < 1 || 0` is true)', '*num stored before the return'))
